@@ -374,6 +374,21 @@ Theorem C08_npultra_geom_map_values : forall c r sh f,
 Proof. exact npu_geom_entry. Qed.
 Print Assumptions C08_npultra_geom_map_values.
 
+(* ---- the no-table fallback is a function of (probe version, stream type) (repo 569e533): with no
+   snsShankMap / snsGeomMap entry, geometry_from_meta gives no geometry when there is no probe version or
+   the stream is nidq (3A-era nidq metas carry typeEnabled, hence a version), and the default layout of
+   the version for every other stream type ---- *)
+Theorem C08_fallback_by_version_and_type : forall d sort,
+  (channel_map d = NoKey \/ channel_map d = Empty) ->
+  geometry_of_dict d sort = fallback (M9.version d) (type_is_nidq d) /\
+  (M9.version d = None -> geometry_of_dict d sort = NoGeometry) /\
+  (forall v, M9.version d = Some v ->
+     (M9.get_type d = Some (Some M9.SNidq) -> geometry_of_dict d sort = NoGeometry) /\
+     (forall t, M9.get_type d = Some t -> t <> Some M9.SNidq ->
+        geometry_of_dict d sort = of_opt (geometry_default (gen_of_vers v)))).
+Proof. exact fallback_table. Qed.
+Print Assumptions C08_fallback_by_version_and_type.
+
 (* ---- non-vacuity: concrete inputs meeting the hypotheses, with the model's values ---- *)
 Example C08_example_sorted_split :
   geometry NP24 ShankMap [(1, 0, 5, 1); (0, 1, 5, 1); (1, 1, 5, 0); (0, 0, 5, 1)] (Some 1) true
@@ -457,3 +472,15 @@ Example C08_example_npultra_geom :
   = Some (mkgeom [0; 0; 0] [3; 7; 1] [20; 32; 32] [1; 1; 1] [18; 42; 6] [20; 32; 32] [1; 0; 0] [0; 1; 0] [2; 1; 0],
           [2; 1; 0]).
 Proof. vm_compute. reflexivity. Qed.
+
+(* a 3A-era nidq meta (typeEnabled gives a probe version) and an imec meta without table *)
+Example C08_example_fallback :
+  geometry_of_file (M9.lit "typeEnabled=imec,nidq
+typeThis=nidq
+snsMnMaXaDw=0,0,1,1
+"%string) true = NoGeometry /\
+  (exists t inds, geometry_of_file (M9.lit "typeEnabled=imec
+typeThis=imec
+snsApLfSy=384,0,1
+"%string) true = Geometry t inds /\ gsize t = NC).
+Proof. split; [vm_compute; reflexivity|]. eexists. eexists. vm_compute. split; reflexivity. Qed.
